@@ -1,4 +1,5 @@
 import SMV.Render
+import SMV.Ops
 /-
   Line protocol of the model driver (not part of any proof): reads one definition per
   line in the prefix format written by /verif/gen, prints the model's front-end dump (T1)
@@ -150,6 +151,209 @@ def processLine (line : String) : List String :=
   | id :: f :: rest =>
     let (d, _) := parseDef.run rest
     processDef id (f == "1") d
+  | _ => []
+
+end SMV.Driver
+
+/-! ### T3: scenarios — operations with scripted hook environments -/
+namespace SMV.Driver
+open SMV
+
+structure SEntry where
+  b : Option Bool := none
+  a : Option Kind := none
+  x : Bool := false
+  w : Option (Name × Nat) := none
+  deriving Inhabited
+
+def parseName (s : String) : Name := (Name.ofString? s).getD []
+
+def parseKind (s : String) : Option Kind :=
+  match s.splitOn "~" with
+  | ["I"] => some .invalidTransition
+  | ["G", n] => some (.guardFailed (parseName n))
+  | ["A", n] => some (.actionFailed (parseName n))
+  | _ => none
+
+def parseEntry (s : String) : SEntry :=
+  if s == "-" then {} else
+  (s.splitOn ",").foldl (fun e kv =>
+    match kv.splitOn "=" with
+    | ["b", v] => { e with b := some (v == "1") }
+    | ["a", v] => { e with a := parseKind v }
+    | ["x", v] => { e with x := v == "1" }
+    | ["w", v] =>
+      match v.splitOn "~" with
+      | [f, n] => { e with w := some (parseName f, n.toNat?.getD 0) }
+      | _ => e
+    | _ => e) {}
+
+/-- the scripted environment: the response of the hook invoked at position `h.length` -/
+def envOf (script : Array SEntry) (sigma : List Name) : Env := fun h c =>
+  let e := script.getD h.length {}
+  if e.x then ⟨.panic, none⟩ else
+  match c.kind with
+  | .cond => ⟨.bool ((e.b).getD (sigma.contains c.name)), none⟩
+  | .before | .after => ⟨.unit, e.w⟩
+  | .aroundBefore | .aroundAfter =>
+    match e.a with
+    | some k => ⟨.abort k, none⟩
+    | none => ⟨.proceed, none⟩
+
+def optNat (s : String) : Option Nat := if s == "-" then none else s.toNat?
+
+def parseOp (toks : List String) : Option Op :=
+  match toks with
+  | ["newtyped", c] => some (.newTyped (c.toNat?.getD 0))
+  | ["newdyn", c] => some (.newDyn (c.toNat?.getD 0))
+  | ["default"] => some .dynDefault
+  | ["handle", v, p] => some (.handle (parseName v) (optNat p))
+  | ["habandon", v, p, n] => some (.handleAbandon (parseName v) (optNat p) (n.toNat?.getD 0))
+  | ["hnopoll", v, p] => some (.handleNoPoll (parseName v) (optNat p))
+  | ["state"] => some .currentState
+  | ["read", s] => some (.read (parseName s))
+  | ["write", s, v] => some (.write (parseName s) (v.toNat?.getD 0))
+  | ["set", s, v] => some (.set (parseName s) (v.toNat?.getD 0))
+  | ["into", s] => some (.into (parseName s))
+  | ["todyn"] => some .toDyn
+  | ["tcall", m, p] => some (.tcall (parseName m) (optNat p))
+  | ["tabandon", m, p, n] => some (.tcallAbandon (parseName m) (optNat p) (n.toNat?.getD 0))
+  | ["tnopoll", m, p] => some (.tcallNoPoll (parseName m) (optNat p))
+  | ["tdata", s] => some (.tdata (parseName s))
+  | ["tdatamut", s, v] => some (.tdataMut (parseName s) (v.toNat?.getD 0))
+  | ["topt", s] => some (.topt (parseName s))
+  | ["toptmut", s, v] => some (.toptMut (parseName s) (v.toNat?.getD 0))
+  | ["drop"] => some .drop
+  | _ => none
+
+def kindText : Kind → String
+  | .invalidTransition => "I"
+  | .guardFailed g => s!"G~{Name.toString g}"
+  | .actionFailed a => s!"A~{Name.toString a}"
+
+def sstr : SStr → String
+  | .name n => Name.toString n
+  | .extracted => "<extracted>"
+
+def dynErrText : DynError → String
+  | .invalidTransition f e => s!"IT:{sstr f}:{sstr e}"
+  | .guardFailed g e => s!"GF:{sstr g}:{sstr e}"
+  | .actionFailed a e => s!"AF:{sstr a}:{sstr e}"
+  | .wrongState x a o => s!"WS:{sstr x}:{sstr a}:{sstr o}"
+
+def panicText : PanicInfo → String
+  | .hook => "hook"
+  | .afterSuccessAbort cb ev => s!"after:{Name.toString cb}:{Name.toString ev}"
+  | .invalidState => "invalid"
+  | .unwrapNone => "unwrap"
+  | .illTyped => "illtyped"
+
+def onat : Option Nat → String
+  | some n => toString n
+  | none => "-"
+
+def resText : Res → String
+  | .unit => "unit"
+  | .ok => "ok"
+  | .errGuard e => s!"errguard:{Name.toString e.guard}:{Name.toString e.event}:{kindText e.kind}"
+  | .errDyn e => s!"errdyn:{dynErrText e}"
+  | .str n => s!"str:{Name.toString n}"
+  | .val v => s!"val:{onat v}"
+  | .panicked p => s!"panic:{panicText p}"
+  | .abandoned => "abandoned"
+  | .refused => "refused"
+  | .noSuch => "nosuch"
+
+def hkText : HK → String
+  | .cond => "cond" | .before => "before" | .after => "after"
+  | .aroundBefore => "ab" | .aroundAfter => "aa"
+
+def slotsText (l : List (Name × Option Nat)) : String :=
+  ";".intercalate (l.map fun (f, v) => s!"{Name.toString f}={onat v}")
+
+def callText (c : HookCall) : String :=
+  s!"{hkText c.kind}/{Name.toString c.name}/{Name.toString c.state}/{c.ctx}/{onat c.ctxArg}/{onat c.payload}/{slotsText c.slots}"
+
+def dropText : Res.Drop → String
+  | .ctx i => s!"ctx:{i}"
+  | .payload i => s!"pay:{i}"
+
+def insertStr (x : String) : List String → List String
+  | [] => [x]
+  | y :: ys => if x ≤ y then x :: y :: ys else y :: insertStr x ys
+
+def obsText (p : Option DynParts) : Holder → String
+  | .gone => "gone"
+  | .typed m => s!"typed:{Name.toString m.state}:{m.ctx}:{slotsText m.slots}"
+  | .dyn d =>
+    match p with
+    | none => "dyn:?"
+    | some p =>
+      let st := match currentState p d with
+        | some n => Name.toString n
+        | none => "poisoned"
+      let reads := p.accs.map fun a => s!"{Name.toString a.stateStr}={onat (dynRead a d)}"
+      s!"dyn:{st}:{";".intercalate reads}"
+
+def stepLine (o : StepOut) (p : Option DynParts) : String :=
+  let drops := (o.drops.map dropText).foldr insertStr []
+  s!"{resText o.res} | {" ".intercalate (o.trace.map callText)} | {" ".intercalate drops} | {obsText p o.holder}"
+
+/-- machine facts the harness generator needs (names are computed here, never in Python) -/
+def infoLines (m : Machine) (feature : Bool) : List String :=
+  [ s!"machine {Name.toString m.name} async={m.asyncMode} concrete={m.context.isSome} dynamic={m.dynamicMode || feature}",
+    s!"dynname {Name.toString (dynamicName m)} eventenum {Name.toString (eventEnumName m)}",
+    s!"initial {Name.toString m.initial}" ] ++
+  m.states.map (fun s => s!"state {Name.toString s} snake={Name.toString (toSnake s)}") ++
+  (sortNames m.hierarchy.allSuperstates).map (fun s => s!"superstate {Name.toString s}") ++
+  m.storage.map (fun s => s!"storage {Name.toString s.stateName} field={Name.toString s.field} opt={Name.toString (trimUnderscores s.field)} snake={Name.toString (toSnake s.stateName)} leaf={m.states.contains s.stateName}") ++
+  m.events.map (fun e => s!"event {Name.toString e.name} pascal={Name.toString (toPascal e.name)} method={Name.toString (toSnake e.name)} payload={e.payload.isSome}") ++
+  m.graph.map (fun (s, e) => s!"edge {Name.toString s} {Name.toString e.event} {Name.toString e.target} g={ns e.guards} u={ns e.unl} b={ns e.before} a={ns e.after} ar={ns e.around}") ++
+  m.states.flatMap (fun leaf => ((alookup leaf m.hierarchy.ancestors).getD []).map fun a => s!"substate {Name.toString leaf} {Name.toString a}")
+
+structure ScnState where
+  code : Code := []
+  parts : Option DynParts := none
+  hold : Holder := .gone
+  ok : Bool := false
+
+def startScenario (rest : List String) : ScnState × List String :=
+  match rest with
+  | id :: f :: toks =>
+    let (d, _) := parseDef.run toks
+    match parseMachine d with
+    | .error e => ({}, [s!"#SCN {id}", s!"ERR {e.msg}"])
+    | .ok m =>
+      match m.expand (f == "1") with
+      | .error e => ({}, [s!"#SCN {id}", s!"ERR {e.msg}"])
+      | .ok code => ({ code := code, parts := code.dynParts, hold := .gone, ok := true }, [s!"#SCN {id}"])
+  | _ => ({}, ["#SCN ?"])
+
+def opLine (st : ScnState) (line : String) : ScnState × String :=
+  if !st.ok then (st, "skip") else
+  match line.splitOn " ; " with
+  | [opS, sigS, scriptS] =>
+    let toks := (opS.splitOn " ").filter (· ≠ "")
+    match parseOp toks with
+    | none => (st, "badop")
+    | some op =>
+      let sigma := if sigS.trimAscii.toString == "-" then [] else
+        ((sigS.trimAscii.toString.splitOn ",").filter (· ≠ "")).map parseName
+      let script := (((scriptS.trimAscii.toString.splitOn " ").filter (· ≠ "")).map parseEntry).toArray
+      let o := step (envOf script sigma) st.code st.parts st.hold op
+      ({ st with hold := o.holder }, stepLine o st.parts)
+  | _ => (st, "badline")
+
+def infoOf (rest : List String) : List String :=
+  match rest with
+  | id :: f :: toks =>
+    let (d, _) := parseDef.run toks
+    match parseMachine d with
+    | .error e => [s!"#INFO {id}", s!"ERR {e.msg}", "#END"]
+    | .ok m =>
+      match m.validate with
+      | .error e => [s!"#INFO {id}", s!"ERR {e.msg}", "#END"]
+      | .ok () => [s!"#INFO {id}"] ++ infoLines m (f == "1") ++ ["#END"]
   | _ => []
 
 end SMV.Driver
